@@ -230,3 +230,13 @@ define_vm!(VmI, OmI, min = 8, max = 8, fill = 0, ref_offset = 0,
     mark = VMLocalMarkBitSpec::in_header(-6),
     pin = VMLocalPinningBitSpec::in_header(-5),
     los = VMLocalLOSMarkNurserySpec::in_header(-4));
+
+// VmJ: forwarding bits at header bits 1..=2 of the forwarding-pointer word (shift 1: 8-byte aligned
+// references leave bits 0..=2 free), mark bit at bit 0.
+define_vm!(VmJ, OmJ, min = 8, max = 8, fill = 0, ref_offset = 0,
+    log = VMGlobalLogBitSpec::side_first(),
+    fwd_ptr = VMLocalForwardingPointerSpec::in_header(0),
+    fwd_bits = VMLocalForwardingBitsSpec::in_header(1),
+    mark = VMLocalMarkBitSpec::in_header(0),
+    pin = VMLocalPinningBitSpec::in_header(-5),
+    los = VMLocalLOSMarkNurserySpec::in_header(-4));
